@@ -282,4 +282,28 @@ register at `S + I`, `S + 2I`, … -/
 def Ticker (P : Pubs) (n : Node) (S I : Int) : Prop :=
   ∀ i : Nat, P (S + ((i : Int) + 1) * I) (regMsg n)
 
+/-! ### the heartbeat loop of `Ready`
+
+The loop draws its period once (`refreshCacheInterval` + jitter), creates the ticker with it and
+from then on does one thing per tick: publish the node's register.  Whether that `Publish` call
+returns an error or not, the loop only logs — it touches neither the period nor the ticker.  A
+failed publish therefore delivers nothing and changes nothing about *when* the node publishes
+next. -/
+
+structure Beat where
+  period : Int        -- the ticker's period
+  next : Int          -- instant of the next tick
+  deriving Repr, DecidableEq
+
+/-- one tick: `published` is whether `PubSub.Publish` succeeded -/
+def Beat.step (b : Beat) (_published : Bool) : Beat := { b with next := b.next + b.period }
+
+/-- the loop after the ticks whose outcomes are listed -/
+def Beat.run (b : Beat) (outcomes : List Bool) : Beat := outcomes.foldl Beat.step b
+
+/-- A heartbeat started at `S` with period `I`, some of whose publishes fail: attempt `i` happens
+at `S + (i+1)·I`, and is on the record `P` when `ok i`. -/
+def Heartbeat (P : Pubs) (n : Node) (S I : Int) (ok : Nat → Bool) : Prop :=
+  ∀ i : Nat, ok i = true → P (S + ((i : Int) + 1) * I) (regMsg n)
+
 end Refinery.Model.Peers
